@@ -72,7 +72,7 @@ func emsHandshake(offerEMS bool) (clientErr, serverErr error, err error) {
 	cc, sc := net.Pipe()
 	done := make(chan error, 1)
 	go func() {
-		sc.SetDeadline(time.Now().Add(10 * time.Second))
+		sc.SetDeadline(time.Now().Add(60 * time.Second))
 		done <- stdtls.Server(sc, scfg).Handshake()
 		sc.Close()
 	}()
@@ -82,7 +82,7 @@ func emsHandshake(offerEMS bool) (clientErr, serverErr error, err error) {
 	}
 	ccfg := &ztls.Config{InsecureSkipVerify: true, ClientFingerprintConfiguration: &ztls.ClientFingerprintConfiguration{
 		HandshakeVersion: ztls.VersionTLS12, CipherSuites: []uint16{0x009c}, CompressionMethods: []uint8{0}, Extensions: exts}}
-	cc.SetDeadline(time.Now().Add(10 * time.Second))
+	cc.SetDeadline(time.Now().Add(60 * time.Second))
 	clientErr = ztls.Client(cc, ccfg).Handshake()
 	cc.Close()
 	return clientErr, <-done, nil
